@@ -8,6 +8,7 @@ package main
 
 import (
 	"bytes"
+	"compress/gzip"
 	"context"
 	"encoding/json"
 	"errors"
@@ -16,6 +17,7 @@ import (
 	"net/http/httptest"
 	"os"
 	"os/exec"
+	"strings"
 	"sync"
 	"time"
 
@@ -40,6 +42,8 @@ type Dir struct {
 	Kind    string  `json:"kind"`
 	Prefix  string  `json:"prefix"`
 	Cap     int     `json:"cap"`
+	Ds      string  `json:"ds"` // how the Datasource is built: "own" | "new" (NewDatasource) | "nilclient" (Client nil, BaseURL set)
+	Gz      int     `json:"gz"` // 1: the server honours Accept-Encoding: gzip (compressed body + Content-Encoding)
 	Current File    `json:"current"`
 	Files   []File  `json:"files"`
 	Queries []Query `json:"queries"`
@@ -54,7 +58,7 @@ type Req struct {
 }
 
 type Got struct {
-	Outcome  string `json:"outcome"` // ok | error | hang
+	Outcome  string `json:"outcome"` // ok | error | hang | crash (the library call panicked, or its process died)
 	Seq      int64  `json:"seq"`
 	StateSeq int64  `json:"state_seq"`
 	Sec      int64  `json:"sec"`
@@ -212,67 +216,100 @@ func runHistory(line []byte) Out {
 				return
 			}
 			w.Header().Set("Content-Type", "text/plain")
+			if d.Gz == 1 && strings.Contains(r.Header.Get("Accept-Encoding"), "gzip") {
+				var buf bytes.Buffer
+				zw := gzip.NewWriter(&buf)
+				zw.Write([]byte(body))
+				zw.Close()
+				w.Header().Set("Content-Encoding", "gzip")
+				w.Write(buf.Bytes())
+				return
+			}
 			w.Write([]byte(body))
 		}))
 		defer srv.Close()
 		out := Out{}
 		for _, q := range d.Queries {
 			var (
-				seq    uint64
-				st     *replication.State
-				err    error
-				rs     *runState
-				ctx    context.Context
-				cancel context.CancelFunc
+				seq      uint64
+				st       *replication.State
+				err      error
+				rs       *runState
+				panicked string
+				ctx      context.Context
+				cancel   context.CancelFunc
 			)
 			// A fresh transport per lookup: no connection survives from a lookup that was cut off by the cap.
 			// A context error although nobody cancelled this lookup's context (no cap, no deadline) cannot come
 			// from the code under test (it creates no contexts): it is a transport artefact, the lookup is redone.
 			for attempt := 0; attempt < 3; attempt++ {
 				tr := &http.Transport{}
-				ds := &replication.Datasource{BaseURL: srv.URL + d.Prefix, Client: &http.Client{Transport: tr}}
+				client := &http.Client{Transport: tr}
+				var ds *replication.Datasource
+				switch d.Ds {
+				case "own":
+					ds = &replication.Datasource{BaseURL: srv.URL + d.Prefix, Client: client}
+				case "new":
+					ds = replication.NewDatasource(client)
+					ds.BaseURL = srv.URL + d.Prefix
+				case "nilclient":
+					// no client of its own: the library falls back to the default datasource's client; this
+					// process runs one history only, so the test client is installed there
+					replication.DefaultDatasource.Client = client
+					ds = &replication.Datasource{BaseURL: srv.URL + d.Prefix}
+				default:
+					vio.Must(errors.New(d.Ds), "unknown datasource construction")
+				}
+				panicked = ""
 				ctx, cancel = context.WithTimeout(context.Background(), deadline)
 				rs = &runState{cap: d.Cap, cancel: cancel}
 				mu.Lock()
 				cur = rs
 				mu.Unlock()
 				t := time.Unix(q.Sec, q.Nsec).In(time.FixedZone("case", q.Tz))
-				switch d.Kind + "/" + q.Op {
-				case "minute/current":
-					var n replication.MinuteSeqNum
-					n, st, err = ds.CurrentMinuteState(ctx)
-					seq = uint64(n)
-				case "hour/current":
-					var n replication.HourSeqNum
-					n, st, err = ds.CurrentHourState(ctx)
-					seq = uint64(n)
-				case "day/current":
-					var n replication.DaySeqNum
-					n, st, err = ds.CurrentDayState(ctx)
-					seq = uint64(n)
-				case "changesets/current":
-					var n replication.ChangesetSeqNum
-					n, st, err = ds.CurrentChangesetState(ctx)
-					seq = uint64(n)
-				case "minute/at":
-					var n replication.MinuteSeqNum
-					n, st, err = ds.MinuteStateAt(ctx, t)
-					seq = uint64(n)
-				case "hour/at":
-					var n replication.HourSeqNum
-					n, st, err = ds.HourStateAt(ctx, t)
-					seq = uint64(n)
-				case "day/at":
-					var n replication.DaySeqNum
-					n, st, err = ds.DayStateAt(ctx, t)
-					seq = uint64(n)
-				case "changesets/at":
-					var n replication.ChangesetSeqNum
-					n, st, err = ds.ChangesetStateAt(ctx, t)
-					seq = uint64(n)
-				default:
-					vio.Must(errors.New(d.Kind+"/"+q.Op), "unknown kind/op")
-				}
+				func() {
+					defer func() {
+						if p := recover(); p != nil {
+							panicked = fmt.Sprint(p)
+						}
+					}()
+					switch d.Kind + "/" + q.Op {
+					case "minute/current":
+						var n replication.MinuteSeqNum
+						n, st, err = ds.CurrentMinuteState(ctx)
+						seq = uint64(n)
+					case "hour/current":
+						var n replication.HourSeqNum
+						n, st, err = ds.CurrentHourState(ctx)
+						seq = uint64(n)
+					case "day/current":
+						var n replication.DaySeqNum
+						n, st, err = ds.CurrentDayState(ctx)
+						seq = uint64(n)
+					case "changesets/current":
+						var n replication.ChangesetSeqNum
+						n, st, err = ds.CurrentChangesetState(ctx)
+						seq = uint64(n)
+					case "minute/at":
+						var n replication.MinuteSeqNum
+						n, st, err = ds.MinuteStateAt(ctx, t)
+						seq = uint64(n)
+					case "hour/at":
+						var n replication.HourSeqNum
+						n, st, err = ds.HourStateAt(ctx, t)
+						seq = uint64(n)
+					case "day/at":
+						var n replication.DaySeqNum
+						n, st, err = ds.DayStateAt(ctx, t)
+						seq = uint64(n)
+					case "changesets/at":
+						var n replication.ChangesetSeqNum
+						n, st, err = ds.ChangesetStateAt(ctx, t)
+						seq = uint64(n)
+					default:
+						vio.Must(errors.New(d.Kind+"/"+q.Op), "unknown kind/op")
+					}
+				}()
 				tr.CloseIdleConnections()
 				if err != nil && errClass(err) == "ctx" && ctx.Err() == nil {
 					cancel()
@@ -289,6 +326,9 @@ func runHistory(line []byte) Out {
 				g.Reqs = []Req{}
 			}
 			switch {
+			case panicked != "":
+				g.Outcome, g.Err, g.Detail = "crash", "panic", panicked
+				g.Seq, g.StateSeq, g.Sec, g.Nsec = -1, -1, -1, -1
 			case g.Count > d.Cap || timedOut:
 				g.Outcome = "hang"
 				g.Seq, g.StateSeq, g.Sec, g.Nsec = -1, -1, -1, -1
